@@ -11,15 +11,20 @@
 (* Known deviations of the code from the property layer are confined by    *)
 (* Strict = FALSE (cases where the code is expected to agree); the         *)
 (* Typelib_w_*.cfg configurations set Strict = TRUE for one kind and make  *)
-(* TLC exhibit the deviation (they are expected to FAIL): w_field (field   *)
-(* readable inverted, bits not written), w_sig (skip_return only written   *)
-(* for functions), w_union (union accessor arithmetic before f2204c4).     *)
+(* TLC exhibit the deviation of the CURRENT code (expected to FAIL):        *)
+(* w_field (field readable inverted, bits not written: known findings).    *)
+(* Dev = what-if switches for the behaviours of EARLIER versions, each     *)
+(* repaired by a fix: commit, each with a witness configuration that must  *)
+(* FAIL: w_sig, w_prop, w_attrs, w_rattrs, w_unichar (BuildEncodes),       *)
+(* w_union (InvAccessor), w_uniondep, w_boxed, w_genenum, w_genunion,      *)
+(* w_gendouble, w_genstring (InvApi).                                      *)
 (* The real code is judged on ALL cases (TypelibCases exports Strict).     *)
 (***************************************************************************)
-EXTENDS Typelib
+EXTENDS TypelibApi
 
-CONSTANTS Kinds,      \* which case families this configuration explores
-          Strict,     \* TRUE: include the inputs on which the code is known to deviate
+CONSTANTS Dev,        \* what-if switches: behaviours of EARLIER versions of the code (each repaired by a fix: commit); {} = the code as it is
+          Kinds,      \* which case families this configuration explores
+          Strict,     \* TRUE: include the inputs on which the CURRENT code deviates (known findings: field readable= / bits=)
           Full,       \* TRUE: all three spellings ("", "0", "1") of every boolean attribute; FALSE: "" and "1" where "0" = ""
           MaxCnt      \* members per section in the container shapes of part 2 (0..MaxCnt)
 
@@ -83,9 +88,8 @@ SigCases == {[ckind |-> k, transfer |-> tr, nullable |-> nu, allow_none |-> an, 
                 k \in {"function", "method", "constructor", "callback", "signal", "vfunc"}, tr \in {"none", "container", "full"},
                 nu \in TriQ, an \in {"", "1"}, sk \in TriQ, th \in TriQ, it \in {"", "none", "full"},
                 ps \in {<<>>, <<"a", "b", "c">>}, rt \in (IF Full THEN {Int32T, RecT} ELSE {RecT})}
-SigAgrees(g) == /\ (g.ckind \in {"callback", "signal", "vfunc"} => g.skip # "1")     \* only FUNCTION writes skip_return
-                /\ (g.ckind = "callback" => g.inst # "full")
-                /\ (g.ckind \in {"function", "callback"} => g.inst = "") /\ (g.ckind = "signal" => g.throws = "")
+\* a callback or plain function has no instance parameter
+SigAgrees(g) == g.ckind \in {"function", "callback"} => g.inst = ""
 SigCasesOK == {g \in SigCases : SigAgrees(g)}
 
 Props3 == <<"pa", "pb", "pc">>
@@ -99,7 +103,6 @@ PropCases == {[name |-> "p", readable |-> r, writable |-> w, construct |-> c, co
                setter |-> s, getter |-> gt, deprecated |-> "", methods |-> Methods3, type |-> ty] :
                 r \in Tri, w \in TriQ, c \in TriQ, co \in TriQ, tr \in {"", "none", "container", "full"},
                 s \in {"", "ma", "mc"}, gt \in {"", "mb"}, ty \in {Int32T, Utf8T}}
-PropAgrees(g) == g.deprecated = ""           \* start_property does not read deprecated=
 PropCasesAll == PropCases \cup {[p EXCEPT !.deprecated = "1"] : p \in {q \in PropCases : q.construct = "" /\ q.construct_only = "" /\ q.type = Int32T}}
 
 SignalCases == {[name |-> "s", when |-> w, no_recurse |-> nr, detailed |-> d, action |-> a, no_hooks |-> nh, deprecated |-> dp] :
@@ -115,6 +118,13 @@ Mags == {<<0, 0, 0, 0>>, <<1, 0, 0, 0>>, <<65535, 0, 0, 0>>, <<0, 1, 0, 0>>, <<6
          <<65535, 65535, 0, 0>>, <<0, 0, 1, 0>>, <<5, 0, 1, 0>>}
 ValueCases == {c \in {[name |-> "v", v |-> [neg |-> n, l |-> m], deprecated |-> d, cid |-> "TST_V"] : n \in BOOLEAN, m \in Mags, d \in Tri} :
                   ~(c.v.neg /\ c.v.l = Zero4)}
+
+OneAttr == <<[name |-> "k", value |-> "v"]>>
+AttrCases == {[role |-> r, attrs |-> a] : r \in AttrRoles, a \in {<<>>, OneAttr, OneAttr \o <<[name |-> "k2", value |-> ""]>>}}
+ConstTags == (1..11) \cup {21}
+ApiCases == {[infoKind |-> ik[1], bt |-> ik[2], bit |-> b, methods |-> ms, class |-> cl] :
+                ik \in {<<"struct", 3>>, <<"boxed", 4>>, <<"enum", 5>>, <<"flags", 6>>, <<"object", 7>>, <<"interface", 8>>, <<"union", 11>>},
+                b \in {0, 1}, ms \in {<<>>, <<"m0", "m1">>}, cl \in ConstClasses}
 
 ---------------------------------------------------------------------------
 \* container shapes for part 2
@@ -135,13 +145,16 @@ VARIABLES kind, g
 vars == <<kind, g>>
 Init == \/ kind = "arg" /\ "arg" \in Kinds /\ g \in ArgCases
         \/ kind = "type" /\ "type" \in Kinds /\ g \in TypeCases
-        \/ kind = "sig" /\ "sig" \in Kinds /\ g \in (IF Strict THEN SigCases ELSE SigCasesOK)
+        \/ kind = "sig" /\ "sig" \in Kinds /\ g \in SigCasesOK
         \/ kind = "function" /\ "function" \in Kinds /\ g \in FnCases
-        \/ kind = "property" /\ "property" \in Kinds /\ g \in (IF Strict THEN PropCasesAll ELSE PropCases)
+        \/ kind = "property" /\ "property" \in Kinds /\ g \in PropCasesAll
         \/ kind = "signal" /\ "signal" \in Kinds /\ g \in SignalCases
         \/ kind = "vfunc" /\ "vfunc" \in Kinds /\ g \in VFuncCases
         \/ kind = "field" /\ "field" \in Kinds /\ g \in (IF Strict THEN FieldCases ELSE FieldCasesOK)
         \/ kind = "value" /\ "value" \in Kinds /\ g \in ValueCases
+        \/ kind = "attrs" /\ "attrs" \in Kinds /\ g \in AttrCases
+        \/ kind = "constsize" /\ "constsize" \in Kinds /\ g \in ConstTags
+        \/ kind = "api" /\ "api" \in Kinds /\ g \in ApiCases
         \/ \E k \in ContainerKinds : kind = k /\ "layout" \in Kinds /\ g \in Shapes(k)
 Next == UNCHANGED vars
 
@@ -149,22 +162,25 @@ All(cl, names) == \A c \in names : cl[c]
 BuildEncodes ==
     CASE kind = "arg" -> All(ArgClauses(Env, g, BuildArg(Env, g)), ArgNames)
       [] kind = "type" -> TypeOK(Env, g.ctx, g.type, BuildType(Env, g.ctx, g.type))
-      [] kind = "sig" -> All(SigClauses(Env, g, BuildSig(Env, g)), SigNames)
+      [] kind = "sig" -> All(SigClauses(Env, g, BuildSig(Env, g, Dev)), SigNames)
       [] kind = "function" -> All(FunctionClauses(g, BuildFunction(g)), FunctionNames)
-      [] kind = "property" -> All(PropertyClauses(Env, g, BuildProperty(Env, g)), PropertyNames)
+      [] kind = "property" -> All(PropertyClauses(Env, g, BuildProperty(Env, g, Dev)), PropertyNames)
       [] kind = "signal" -> All(SignalClauses(g, BuildSignal(g)), SignalNames)
       [] kind = "vfunc" -> All(VFuncClauses(g, BuildVFunc(g)), VFuncNames)
       [] kind = "field" -> All(FieldClauses(Env, g, BuildField(Env, g)), FieldNames)
       [] kind = "value" -> All(ValueClauses(g, BuildValue(g)), ValueNames)
+      [] kind = "attrs" -> AttrClauses(g, BuildAttrs(g.role, g, Dev)).Attributes
+      [] kind = "constsize" -> BuildConstSize(g, Dev) = ConstSizeOfTag(g)
       [] OTHER -> TRUE
 
 IsShape == kind \in ContainerKinds
 \* Aligned4 /\ InBounds /\ NoOverlap /\ NoHole /\ ReaderMeetsWriter on one evaluation of the writer's walk
 InvLayout == IsShape => LayoutAll(kind, g)
-\* the C accessors (as transcribed in Typelib!AccessorOffset) compute the place the format prescribes.  Strict = TRUE swaps in the
-\* union arithmetic of before fix f2204c4 (plain multiplication): the what-if Typelib_w_union.cfg must exhibit a union whose field
-\* embeds a callback
-InvAccessor == IsShape => AccessorsMeetFormat(kind, g, ~Strict)
+\* the C accessors (as transcribed in Typelib!AccessorOffset) compute the place the format prescribes.  "union_multiplies": the
+\* union arithmetic of before fix f2204c4 (plain multiplication, embedded CallbackBlobs ignored)
+InvAccessor == IsShape => AccessorsMeetFormat(kind, g, "union_multiplies" \notin Dev)
+\* the other accessors / g-ir-generate, where they are more than a field read (TypelibApi part 4b)
+InvApi == kind = "api" => ImplMeetsApi(g, Dev)
 \* sanity of the type vocabulary: what Build produces for an interface reference names a (namespace, name) pair
 InvTypeSane == kind = "type" => \A i \in 1..Len(BuildType(Env, g.ctx, g.type)) :
                   LET n == BuildType(Env, g.ctx, g.type)[i] IN (n.tag = 16) => (n.rname # "" /\ n.rns # "")
